@@ -824,7 +824,20 @@ theorem random_permute_spec (axes drawn : List Int) (hv : randomAxesOk axes = tr
     (hr : isRearrangement axes drawn = true) : randomPermuteGood axes drawn = true :=
   randomPermute_good hv hr
 
+/-! ## index items of a foreign type -/
+
+/-- **An accepted index holds ints and slices only**: an item of any other type (None, Ellipsis, a numpy integer, a float,
+a list …; `bool` is an `int`) is never accepted — and in first place it is refused with TypeError whatever follows.
+(More than three items: IndexError first; an out-of-range int or slice before it: that refusal first.) -/
+theorem getitem_refuses_foreign_items (g : Geom) (items : List Item) :
+    (∀ r, getitemG AxMap.size g items = .ok r → ∀ it ∈ items, it ≠ Item.foreign) ∧
+    (∀ rest : List Item, rest.length ≤ 2 → getitemG AxMap.size g (Item.foreign :: rest) = .error .type) :=
+  ⟨fun _ h => getitemG_no_foreign AxMap.size h, fun rest hl => getitemG_foreign_first AxMap.size g rest hl⟩
+
 /-! ## non-vacuity (round 2) -/
+example : (match getitemG AxMap.size g0 [.int 1, .foreign] with | .error e => e == .type | .ok _ => false) = true ∧
+    (match getitemG AxMap.size g0 [.int 7, .foreign] with | .error e => e == .index | .ok _ => false) = true := by
+  decide +kernel
 
 example : ((flipG AxMap.size g0 [0, 2]).toBool = true) ∧ ([0, 2].length > 3 || [0, 2].any (fun a => !validAxis a)) = false := by
   decide +kernel
